@@ -33,6 +33,7 @@ type State struct {
 	Rp    []int    `json:"rp"`
 	Uid   []string `json:"uid"`
 	Heads []Head   `json:"heads"`
+	Dead  []int    `json:"dead"`
 }
 
 // Key is a canonical string for a state.
@@ -46,6 +47,8 @@ func (s State) Key() string {
 	})
 	c := s
 	c.Heads = hs
+	c.Dead = append([]int(nil), s.Dead...)
+	sort.Ints(c.Dead)
 	b, _ := json.Marshal(c)
 	return string(b)
 }
@@ -74,6 +77,8 @@ type Sess struct {
 	Pool   map[string]string // pool name -> concrete hex
 	Script []Step            // what was sent
 	Roots  []string          // concrete uuids of repo roots created in this session
+	Dead   map[int]bool      // positions in Roots of repos deleted in this session
+	ninst  int
 	bogus  string
 }
 
@@ -95,7 +100,7 @@ func RandHex() string {
 
 // NewSess starts a session.
 func NewSess(n *node.Node) *Sess {
-	return &Sess{N: n, Pool: map[string]string{}, bogus: "f0f0" + RandHex()[4:]}
+	return &Sess{N: n, Pool: map[string]string{}, Dead: map[int]bool{}, bogus: "f0f0" + RandHex()[4:]}
 }
 
 func (s *Sess) concreteUUIDArg(u string) (string, bool) {
@@ -121,6 +126,13 @@ func (s *Sess) concreteUUIDArg(u string) (string, bool) {
 // NodeUUID maps an abstract node (0 = unknown) to a concrete UUID.
 func (s *Sess) NodeUUID(k int) string {
 	if k >= 1 && k <= len(s.UUIDs) {
+		// a node of a deleted repo whose UUID has since been assigned to a newer node can no
+		// longer be addressed: to the server it is an unknown UUID
+		for j := k; j < len(s.UUIDs); j++ {
+			if s.UUIDs[j] == s.UUIDs[k-1] {
+				return s.bogus
+			}
+		}
 		return s.UUIDs[k-1]
 	}
 	return s.bogus
@@ -233,6 +245,53 @@ func (s *Sess) Apply(op Op) (accepted bool, status int, err error) {
 			return true, 200, nil
 		}
 		return false, r.Status, nil
+	case "deleterepo":
+		u := s.NodeUUID(op.Node)
+		err = s.N.Call("ds.deleterepo", map[string]string{"UUID": u, "Passcode": ""}, nil)
+		s.Script = append(s.Script, Step{Method: "CALL", URL: "ds.deleterepo " + u, Resp: fmt.Sprint(err)})
+		if err != nil {
+			if _, ok := err.(*node.CallError); ok {
+				return false, 400, nil
+			}
+			return false, 0, err
+		}
+		for i, r := range s.Roots {
+			if r == u && !s.Dead[i] {
+				s.Dead[i] = true
+			}
+		}
+		return true, 200, nil
+	case "note":
+		r, err = s.HTTP("POST", "/api/node/"+s.NodeUUID(op.Node)+"/log", []byte(`{"log":["x"]}`))
+		return r.Status == 200, r.Status, err
+	case "log":
+		r, err = s.HTTP("POST", "/api/node/"+s.NodeUUID(op.Node)+"/log", []byte(`{"log":["entry"]}`))
+		return r.Status == 200, r.Status, err
+	case "repolog":
+		r, err = s.HTTP("POST", "/api/repo/"+s.NodeUUID(op.Node)+"/log", []byte(`{"log":["repo entry"]}`))
+		return r.Status == 200, r.Status, err
+	case "newinstance":
+		s.ninst++
+		b, _ := json.Marshal(map[string]string{"typename": "keyvalue", "dataname": fmt.Sprintf("i%d", s.ninst)})
+		r, err = s.HTTP("POST", "/api/repo/"+s.NodeUUID(op.Node)+"/instance", b)
+		return r.Status == 200, r.Status, err
+	case "renameinstance", "deleteinstance":
+		// act on the newest instance of this session if any (else the request is refused: fine, still neutral)
+		name := fmt.Sprintf("i%d", s.ninst)
+		u := s.NodeUUID(op.Node)
+		if op.Op == "renameinstance" {
+			err = s.N.Call("ds.rename", map[string]string{"UUID": u, "Old": name, "New": name + "r", "Passcode": ""}, nil)
+		} else {
+			err = s.N.Call("ds.deletedata", map[string]string{"UUID": u, "Name": name, "Passcode": ""}, nil)
+		}
+		s.Script = append(s.Script, Step{Method: "CALL", URL: op.Op + " " + u + " " + name, Resp: fmt.Sprint(err)})
+		if err != nil {
+			if _, ok := err.(*node.CallError); ok {
+				return false, 400, nil
+			}
+			return false, 0, err
+		}
+		return true, 200, nil
 	}
 	return false, 0, fmt.Errorf("unknown op %q", op.Op)
 }
@@ -265,6 +324,7 @@ type RepoInfo struct {
 type Observed struct {
 	State  State
 	Extra  []string // problems seen while projecting (unknown nodes, dangling links, ...)
+	Missing []bool  // nodes of the session absent from the server's repo infos
 	Raw    map[string]RepoInfo
 	WFErrs []string // well-formedness errors of the raw graph (Go-side Inv_C07)
 }
@@ -272,10 +332,28 @@ type Observed struct {
 // Project reads /api/repos/info and projects the repos that contain session nodes.
 func (s *Sess) Project() (*Observed, error) {
 	all := map[string]RepoInfo{}
-	for _, root := range s.Roots {
+	var extraDead []string
+	liveUUID := map[string]bool{}
+	for i, root := range s.Roots {
+		if !s.Dead[i] {
+			liveUUID[root] = true
+		}
+	}
+	for i, root := range s.Roots {
 		r, err := s.N.HTTP("GET", "/api/repo/"+root+"/info", nil)
 		if err != nil {
 			return nil, err
+		}
+		if s.Dead[i] {
+			// a deleted repo must be gone (unless its UUID has since been assigned to a new node)
+			if r.Status == 200 {
+				var ri RepoInfo
+				json.Unmarshal(r.Bytes(), &ri)
+				if ri.Root == root && !liveUUID[root] {
+					extraDead = append(extraDead, fmt.Sprintf("deleted repo %s still answers repo info", root))
+				}
+			}
+			continue
 		}
 		if r.Status != 200 {
 			return nil, fmt.Errorf("repo/%s/info status %d: %s", root, r.Status, r.Bytes())
@@ -291,6 +369,7 @@ func (s *Sess) Project() (*Observed, error) {
 		idx[u] = i + 1
 	}
 	ob := &Observed{Raw: map[string]RepoInfo{}}
+	ob.Extra = append(ob.Extra, extraDead...)
 	n := len(s.UUIDs)
 	st := State{NN: n, Par: make([][]int, n), Kids: make([][]int, n), Br: make([]string, n), Lk: make([]bool, n),
 		Kind: make([]string, n), Rp: make([]int, n), Uid: make([]string, n)}
@@ -415,9 +494,10 @@ func (s *Sess) Project() (*Observed, error) {
 			ob.WFErrs = append(ob.WFErrs, fmt.Sprintf("repo %s has %d parentless nodes", rootUUID, nroots))
 		}
 	}
+	ob.Missing = make([]bool, n)
 	for i := range seen {
 		if !seen[i] {
-			ob.Extra = append(ob.Extra, fmt.Sprintf("node n%d (%s) missing from repos/info", i+1, s.UUIDs[i]))
+			ob.Missing[i] = true
 		}
 		if st.Par[i] == nil {
 			st.Par[i] = []int{}
@@ -455,8 +535,8 @@ func (s *Sess) HeadOf(root int, branch string) (int, error) {
 		j := strings.LastIndex(out.Note, "\"")
 		if i >= 0 && j > i {
 			tag := out.Note[i+1 : j]
-			for k, u := range s.UUIDs {
-				if u == tag {
+			for k := len(s.UUIDs) - 1; k >= 0; k-- {
+				if s.UUIDs[k] == tag {
 					return k + 1, nil
 				}
 			}
@@ -517,7 +597,23 @@ func Diff(want State, ob *Observed) []string {
 	if got.NN != want.NN {
 		d = append(d, fmt.Sprintf("node count: spec %d, server %d", want.NN, got.NN))
 	}
+	deadRoot := map[int]bool{}
+	for _, r := range want.Dead {
+		deadRoot[r] = true
+	}
 	for i := 0; i < want.NN && i < got.NN; i++ {
+		isDead := deadRoot[want.Rp[i]]
+		if i < len(ob.Missing) && ob.Missing[i] != isDead {
+			if isDead {
+				d = append(d, fmt.Sprintf("n%d belongs to a deleted repo but is still listed", i+1))
+			} else {
+				d = append(d, fmt.Sprintf("n%d missing from the server's repo info", i+1))
+			}
+			continue
+		}
+		if isDead {
+			continue
+		}
 		if !eqInts(want.Par[i], got.Par[i]) {
 			d = append(d, fmt.Sprintf("n%d parents: spec %v, server %v", i+1, want.Par[i], got.Par[i]))
 		}
